@@ -216,6 +216,9 @@ def run(tier, seed, log):
     common.pjplan()
     ids, W = [0, 2, 0], 2
     blobs = states(ids, W, 1200 if tier == "quick" else 100000, log)
+    # three members with distinct ids, numbered against the order of creation: siblings whose list order is
+    # not the order of their ids
+    blobs += states([5, -1, 3], 1, 1500 if tier == "quick" else 100000, log)[::3 if tier == "quick" else 1]
     if tier == "thorough":
         blobs += states([0, 2, 3, 0], 2, 4000, log)[::3]
     log("copy: %d reachable states of the real objects (%.0fs)" % (len(blobs), time.time() - t0))
@@ -226,8 +229,8 @@ def run(tier, seed, log):
     by_n = {}
     for b in blobs:
         U = pickle.loads(b)
-        by_n.setdefault(tuple(U.ids), []).append(b)
-    for uids, bl in by_n.items():
+        by_n.setdefault((tuple(U.ids), U.w), []).append(b)
+    for (uids, W), bl in by_n.items():
         C = explore.consts(list(uids), W, graph.default_prio(len(uids)))
         wd, mod = tlc.prepare_judge("CopyTrace", C, "cp")
         try:
